@@ -667,7 +667,20 @@ func ruleC08PFD(w *World, r *Report) {
 		})
 		r.check(fresh && inPlace == "", "R08.4", w.FuncName(reset), "ResetAppPFDs installs a fresh map and leaves the old one intact", w.Pos(reset.Pos()), "store of make(map)", "ResetAppPFDs empties the existing map in place ("+inPlace+"): the handler's saved reference for roll-back points to the same, now emptied/refilled map, so a rejected request does not restore the previous table")
 	}
-	resetCalls := callsTo(h, reset)
+	// the reset: a call of ResetAppPFDs, or the same store of a fresh map written out in the handler
+	var resetCalls []ssa.Instruction
+	for _, c := range callsTo(h, reset) {
+		resetCalls = append(resetCalls, c.(ssa.Instruction))
+	}
+	allInstrs(h, func(i ssa.Instruction) {
+		if st, ok := i.(*ssa.Store); ok {
+			if fa, ok := st.Addr.(*ssa.FieldAddr); ok && fieldVar(fa) != nil && fieldVar(fa).Name() == "appPFDs" {
+				if _, isMake := st.Val.(*ssa.MakeMap); isMake {
+					resetCalls = append(resetCalls, i)
+				}
+			}
+		}
+	})
 	r.floor("R08.4 ResetAppPFDs call in the handler", len(resetCalls), 1)
 	// the snapshot: a load of pConn.appPFDs that precedes the reset
 	var snapshot ssa.Value
@@ -681,7 +694,7 @@ func ruleC08PFD(w *World, r *Report) {
 			return
 		}
 		for _, rc := range resetCalls {
-			if instrDominates(i, rc.(ssa.Instruction)) && snapshot == nil {
+			if instrDominates(i, rc) && snapshot == nil {
 				snapshot = u
 			}
 		}
@@ -702,7 +715,7 @@ func ruleC08PFD(w *World, r *Report) {
 			}
 			dom := false
 			for _, rc := range resetCalls {
-				if instrDominates(rc.(ssa.Instruction), i) {
+				if instrDominates(rc, i) {
 					dom = true
 				}
 			}
